@@ -567,6 +567,11 @@ def run_model(drv, cases, tag, shuffle=0):
     return blocks, errs
 
 
+def strip_por(lines):
+    """(kept as a hook) the oracle reproduces the whole log including the onReset sequence of powerOn"""
+    return lines
+
+
 def first_diff(a, b):
     for i, (x, y) in enumerate(zip(a, b)):
         if x != y:
@@ -587,7 +592,7 @@ def shrink(exe, c):
         except Exception:
             return False
         got, _ = run_harness(exe, [x], "shrink")
-        return got.get(x["id"]) != exp
+        return strip_por(got.get(x["id"], [])) != strip_por(exp)
     cur = json.loads(json.dumps(c, default=str))
     cur = parse_cases(case_text(c))[0]
     changed = True
@@ -691,7 +696,7 @@ def main():
             d2 = first_diff(model.get(cid, []), model_sh.get(cid, []))
             if d2:
                 mism_shuffle.append((cid, d2))
-        d = first_diff(a, orac[cid])
+        d = first_diff(strip_por(a), strip_por(orac[cid]))
         if d:
             mism_oracle.append((cid, d))
         # coverage histogram (from the implementation's log)
@@ -783,7 +788,7 @@ def main():
                 for c in batch:
                     if any(l.startswith("ERROR") for l in got[c["id"]]):
                         continue
-                    if got[c["id"]] != oracle(c):
+                    if strip_por(got[c["id"]]) != strip_por(oracle(c)):
                         found = c
                         break
         else:
@@ -792,7 +797,7 @@ def main():
             small = shrink(exe, found)
             got, _ = run_harness(exe, [small], "final")
             exp = oracle(small)
-            d = first_diff(got[small["id"]], exp)
+            d = first_diff(strip_por(got[small["id"]]), strip_por(exp))
             rep.violation(dict(property=CID, what_broke=broken, case_text=case_text(small),
                                first_difference=dict(line=d[0], observed=d[1], expected=d[2]) if d else None,
                                expected=exp, observed=got[small["id"]],
